@@ -11,13 +11,16 @@ EXPLANATION = ("mirsym Mode A: (1) one iteration of FileDeduper::process_chunks'
                "MAX_XORB_BYTES / MAX_XORB_CHUNKS (so the invariant 'the open xorb is within limits' is inductive and every cut xorb is "
                "within limits); (2) the session's cut-or-merge decision: the aggregators are merged only when both sums are within the "
                "limits. Mode B: an empty xorb never reaches the store (the uploader returns before spawning the put). Limits are the "
-               "values read from the configurable constants on the same path (any configuration).")
+               "values read from the configurable constants on the same path (any configuration). The byte counter the limit check reads is "
+               "kept equal to the buffered bytes step by step: every append adds the appended slice's length exactly once, a cut resets it "
+               "(dedup_append_consistent / dedup_cut_resets), and segments with the placeholder xorb hash are always registered for resolution.")
 BOUNDS = "one loop iteration / one decision from an arbitrary state; all 64-bit values of sizes, counts and limits"
 ASSUMPTIONS = ["a single chunk is never larger than MAX_XORB_BYTES (chunk <= maximum chunk size: C04 / C07)",
                "Vec::len and DataAggregator::num_bytes/num_chunks report the true sizes; calls are havocked otherwise",
                "concurrent completion of files: the session aggregator is only touched under its mutex (lock granularity assumed)"]
-OUTSIDE = ["'no file record is emitted with an unresolved xorb reference' (needs the FileDeduper/DataAggregator bookkeeping harness, infeasible under CBMC: DESIGN.md 6.2)",
-           "that new_data_size equals the sum of the buffered chunk lengths (vector contents are not modelled)"]
+OUTSIDE = ["'no file record is emitted with an unresolved xorb reference' as a statement over whole histories (the FileDeduper/DataAggregator harness is infeasible under CBMC: DESIGN.md 6.2); "
+           "decided here are its single-step parts: placeholder segments are always registered for resolution, and a cut resolves every registered segment (dedup_* obligations)",
+           "DataAggregator::merge_in's re-indexing of segments"]
 
 
 def struct_fields(path, name):
@@ -161,3 +164,5 @@ SMT = [
     Q("c15_nonempty_put", "empty xorbs never reach the store", "data", build_nonempty, functions=["data::file_upload_session::FileUploadSession::register_new_xorb_for_upload"],
       bounds="all CFG paths", solvers=("z3", "cvc5-bv")),
 ]
+from props import dedup_book as _db
+SMT += [_db.Q_APP, _db.Q_REG, _db.Q_CUT]
